@@ -35,7 +35,8 @@ SHARED = [
 
 def gen_enum(rng, idx, conv):
     """Returns (rust source of the enum + its check function, description)."""
-    trait, tych = rng.choice([("Display", ""), ("Display", ""), ("LowerHex", "x"), ("Octal", "o")])
+    trait, tych = rng.choice([("Display", ""), ("Display", ""), ("LowerHex", "x"), ("Octal", "o"), ("UpperHex", "X"), ("Binary", "b"),
+                              ("LowerExp", "e"), ("UpperExp", "E")])
     an = G.ATTR_NAME[trait]
     sh_src, mentions, needs0 = rng.choice(SHARED)
     case = rng.choice([None, None] + G.CASES)
